@@ -329,6 +329,26 @@ def run(tier, seed, t0):
     # (depth up to 6) completely, to the structure computed from the item's unfolding at the depth of the value
     rec_schema_stage(exe, seed, stats, classes, disagreements, failures)
 
+    # two items whose variant inner struct `<Enum><Variant>` captures another name (findings F23 / F24)
+    cap = run_cases(exe, [case_line('cap', 'sch-capture', '-', '-')]).get('cap') or ''
+    for rec in [x for x in cap.split(';;') if x.count('|') == 2]:
+        name, csx, h = rec.split('|')
+        stats['evaluations'] += 1
+        why = None
+        try:
+            got, rest = SO.interp(O.parse_container(csx), bytes.fromhex(h))
+            if rest:
+                why = '%d byte(s) left over' % len(rest)
+        except SO.NoDecode as e:
+            why = 'the container cannot decode the bytes (%s)' % e
+        classes['capture:' + ('ok' if why is None else 'fail')] += 1
+        if why:
+            failures.append({'class': 'schema-inner-struct-name-capture', 'key': name,
+                             'what': 'BorshSchema derive, %s: the container does not describe the bytes of a value: %s [container %s bytes %s]' % (name, why, csx, h),
+                             'container': csx, 'bytes': h})
+    if cap.count(';;') != 1:
+        disagreements.append({'what': 'sch-capture gave %r' % cap[:200]})
+
     # (4) + oracle: values
     nval = 6 if tier == 'quick' else 24
     cases = []
